@@ -1100,40 +1100,64 @@ impl<'a, 't, 'g> VGen<'a, 't, 'g> {
             let dst = if g.at_resource { &mut resource_globals } else { &mut global_var };
             dst.push(vd(&g.name, VariableType::Global, if g.constant { DeclarationQualifier::Constant } else { DeclarationQualifier::Unspecified }, simple(g.ty.clone().into(), c)));
         }
-        let nt = self.t.count(0, 2);
-        let tasks: Vec<TaskConfiguration> = (0..nt)
-            .map(|_| TaskConfiguration {
-                name: id(&self.fresh()),
-                priority: self.t.below(10) as u32,
-                interval: if self.t.flag() {
-                    Some(DurationLiteral { span: SourceSpan::default(), interval: time::Duration::milliseconds(10 * (1 + self.t.below(100) as i64)) })
-                } else {
-                    None
-                },
-            })
-            .collect();
-        let mut programs = vec![];
-        let np = 1 + self.t.count(0, 1);
-        for _ in 0..np {
-            let pname = self.fresh();
-            let ty = if self.progs.is_empty() { self.fresh() } else { self.progs[self.t.below(self.progs.len())].clone() };
-            let mut task_name = if !tasks.is_empty() && self.t.ratio(2, 3) { Some(tasks[self.t.below(tasks.len())].name.clone()) } else { None };
-            if self.site(FaultKind::TaskUndefined) {
-                let m = self.marker("notask");
-                self.set_marker(&m);
-                task_name = Some(id(&m));
-            }
-            programs.push(ProgramConfiguration { name: id(&pname), storage: None, task_name, type_name: id(&ty), fb_tasks: vec![], sources: vec![], sinks: vec![] });
+        // one configuration (with its single resource - the parser has a TODO for several),
+        // sometimes two; a task is local to its resource
+        let nres = if self.t.ratio(1, 3) && self.g.want("SEVERAL_CONFIGURATIONS") { 2 } else { 1 };
+        let mut task_names: Vec<Vec<String>> = vec![];
+        for _ in 0..nres {
+            let nt = self.t.count(0, 2);
+            task_names.push((0..nt).map(|_| self.fresh()).collect());
         }
-        let rname = self.fresh();
-        let ron = self.fresh();
-        out.push(LibraryElementKind::ConfigurationDeclaration(ConfigurationDeclaration {
-            name: id(&name),
-            global_var,
-            resource_decl: vec![ResourceDeclaration { name: id(&rname), resource: id(&ron), global_vars: resource_globals, tasks, programs }],
-            fb_inits: vec![],
-            located_var_inits: vec![],
-        }));
+        for r in 0..nres {
+            self.cur_decl = out.len();
+            let tasks: Vec<TaskConfiguration> = task_names[r]
+                .clone()
+                .iter()
+                .map(|n| TaskConfiguration {
+                    name: id(n),
+                    priority: self.t.below(10) as u32,
+                    interval: if self.t.flag() {
+                        Some(DurationLiteral { span: SourceSpan::default(), interval: time::Duration::milliseconds(10 * (1 + self.t.below(100) as i64)) })
+                    } else {
+                        None
+                    },
+                })
+                .collect();
+            let mut programs = vec![];
+            let np = 1 + self.t.count(0, 1);
+            for _ in 0..np {
+                let pname = self.fresh();
+                let ty = if self.progs.is_empty() { self.fresh() } else { self.progs[self.t.below(self.progs.len())].clone() };
+                let mut task_name = if !tasks.is_empty() && self.t.ratio(2, 3) { Some(tasks[self.t.below(tasks.len())].name.clone()) } else { None };
+                if self.site(FaultKind::TaskUndefined) {
+                    // a task that exists nowhere - or (same rule) a task of the *other* resource
+                    let foreign: Vec<String> = task_names.iter().enumerate().filter(|(k, _)| *k != r).flat_map(|(_, v)| v.iter().cloned()).collect();
+                    if !foreign.is_empty() && self.t_free_flag() {
+                        let f = foreign[self.sites.iter().sum::<usize>() % foreign.len()].clone();
+                        self.set_marker(&f);
+                        if let Some(p) = &mut self.planted {
+                            p.site_class = format!("{}.task-of-other-configuration", p.site_class);
+                        }
+                        task_name = Some(id(&f));
+                    } else {
+                        let m = self.marker("notask");
+                        self.set_marker(&m);
+                        task_name = Some(id(&m));
+                    }
+                }
+                programs.push(ProgramConfiguration { name: id(&pname), storage: None, task_name, type_name: id(&ty), fb_tasks: vec![], sources: vec![], sinks: vec![] });
+            }
+            let rname = self.fresh();
+            let ron = self.fresh();
+            let cname = if r == 0 { name.clone() } else { self.fresh() };
+            out.push(LibraryElementKind::ConfigurationDeclaration(ConfigurationDeclaration {
+                name: id(&cname),
+                global_var: if r == 0 { std::mem::take(&mut global_var) } else { vec![] },
+                resource_decl: vec![ResourceDeclaration { name: id(&rname), resource: id(&ron), global_vars: if r == 0 { std::mem::take(&mut resource_globals) } else { vec![] }, tasks, programs }],
+                fb_inits: vec![],
+                located_var_inits: vec![],
+            }));
+        }
     }
 }
 
